@@ -116,8 +116,9 @@ type lexer struct {
 	tokens chan token
 	state  stateFn
 	mode   mode
-	last   token // The last emitted token
-	parens int   // Number of open parenthesis
+	last   token  // The last emitted token
+	parens int    // Number of open parenthesis
+	braces []bool // For each open parenthesis, innermost last: is it a "{"?
 
 	prev     tokenType // Type of the last emitted non-whitespace token
 	verbatim bool      // True while lexing the opening tag of a verbatim section
@@ -150,7 +151,7 @@ func (l *lexer) tokenize() {
 func newLexer(input io.Reader) *lexer {
 	// TODO: lexer should use the reader.
 	i, _ := ioutil.ReadAll(input)
-	return &lexer{0, 0, 1, 0, string(i), make(chan token), nil, modeNormal, token{}, 0, tokenEOF, false}
+	return &lexer{0, 0, 1, 0, string(i), make(chan token), nil, modeNormal, token{}, 0, nil, tokenEOF, false}
 }
 
 func (l *lexer) next() (val string) {
@@ -281,6 +282,11 @@ func lexExpression(l *lexer) stateFn {
 		strings.HasPrefix(l.input[l.pos:], delimTrimWhitespace+delimClosePrint):
 		if l.pos > l.start {
 			return l.errorf("pos > start, previous token not emitted?")
+		}
+		if n := len(l.braces); n > 0 && l.braces[n-1] && str == "}" {
+			// A hash is still open: the first brace closes it, as in
+			// "{{ {'a': {'b': 1}}.a }}" or "{{ {'a': 1}}}".
+			return lexCloseParens
 		}
 		return lexPrintClose
 
@@ -442,12 +448,12 @@ func lexString(l *lexer) stateFn {
 			l.mode = modeInterpolate
 			// Parentheses opened before the string (function arguments, groups,
 			// lists) must not hide the closing brace of the interpolation.
-			outer := l.parens
-			l.parens = 0
+			outer, outerBraces := l.parens, l.braces
+			l.parens, l.braces = 0, nil
 			for ins := lexExpression; ins != nil; {
 				ins = ins(l)
 			}
-			l.parens = outer
+			l.parens, l.braces = outer, outerBraces
 			if l.mode == modeClosed {
 				return nil
 			}
@@ -516,7 +522,8 @@ func closingDoubleQuote(s string) int {
 }
 
 func lexOpenParens(l *lexer) stateFn {
-	switch str := l.next(); {
+	str := l.next()
+	switch {
 	case str == "(":
 		l.emit(tokenParensOpen)
 
@@ -530,6 +537,7 @@ func lexOpenParens(l *lexer) stateFn {
 		return l.errorf("unknown parenthesis")
 	}
 	l.parens++
+	l.braces = append(l.braces, str == "{")
 	return lexExpression
 }
 
@@ -551,6 +559,9 @@ func lexCloseParens(l *lexer) stateFn {
 		return l.errorf("invalid parenthesis")
 	}
 	l.parens--
+	if n := len(l.braces); n > 0 {
+		l.braces = l.braces[:n-1]
+	}
 	return lexExpression
 }
 
